@@ -312,6 +312,8 @@ def _free_scenarios(K6):
          "clear": False, "maxCostOps": False, "ttls": [1, 5], "costs": [1], "ample": True, "sleep": False, "yield": True},
         {"name": "sweeprace", "cfg": _hc([1, 2, 3], MaxCost=100000, BufCap=64, D=1), "goroutines": 6, "opsPer": 150, "clear": False,
          "maxCostOps": False, "ttls": [1, 1, 2, 0, 30], "costs": [1], "ample": True, "sleep": True, "pattern": "sweeprace", "yield": True},
+        {"name": "clearrace", "cfg": _hc(list(range(215, 256)), MaxCost=100000, BufCap=64), "goroutines": 6, "opsPer": 160, "clear": True,
+         "maxCostOps": False, "ttls": [], "costs": [1], "ample": True, "sleep": False, "pattern": "clearrace", "yield": True},
         {"name": "admitrace", "cfg": _hc([1, 2, 3], MaxCost=2, BufCap=8, numCounters=16), "goroutines": 8, "opsPer": 250, "clear": False, "maxCostOps": False,
          "ttls": [], "costs": [1], "ample": False, "sleep": False, "pattern": "admitrace", "yield": True},
         {"name": "tight-yield", "cfg": _hc(K6, MaxCost=6, BufCap=4), "goroutines": 8, "opsPer": 200, "clear": False, "maxCostOps": False,
